@@ -942,12 +942,15 @@ class Interp:
                 self.emit("store", st, target=Term("attr", base, attr), value=v, base=base, attr=attr, setter=setter)
                 if pol(setter, st):
                     self.run_function(Fn(setter, base), [v], {}, st)
+                elif not isinstance(base, Obj):
+                    self.invalidate_attrs(base, modset(self.p, setter))
                 return
         if isinstance(base, Obj):
             base.attrs[attr] = v
         elif isinstance(base, Cls):
             self.heap[("cls:" + base.ci.qualname, attr)] = v
         else:
+            self.__dict__.setdefault("_attr_cache", {}).pop((show(base), attr), None)
             self.heap[(show(base), attr)] = v
         self.emit("store", st, target=Term("attr", base, attr), value=v, base=base, attr=attr, setter=None)
 
@@ -1084,8 +1087,28 @@ class Interp:
                 if cv is not UNKNOWN:
                     return to_value(cv)
             hint = self.attr_hint(ci, attr)
+            return self.cached_attr(base, attr, hint)
+        return self.cached_attr(base, attr, None)
+
+    def cached_attr(self, base, attr, hint):
+        """Plain attribute reads of the same object return the same Term until the attribute
+        is stored to or a non-inlined callee that may store it runs (see modset)."""
+        if isinstance(base, Obj):
             return Term("attr", base, attr, hint=hint)
-        return Term("attr", base, attr)
+        cache = self.__dict__.setdefault("_attr_cache", {})
+        key = (show(base), attr)
+        t = cache.get(key)
+        if t is None:
+            t = Term("attr", base, attr, hint=hint)
+            cache[key] = t
+        return t
+
+    def invalidate_attrs(self, base, attrs):
+        cache = self.__dict__.setdefault("_attr_cache", {})
+        b = show(base)
+        for a in attrs:
+            cache.pop((b, a), None)
+            self.heap.pop((b, a), None)
 
     def class_dict(self, ci: ClassInfo) -> Dct:
         """Namespace of a class object as CPython builds it: declared members plus the
@@ -1297,6 +1320,20 @@ class Interp:
         return Const(True)
 
     def compare(self, op, l, r, node) -> Value:
+        v = self._compare(op, l, r, node)
+        if isinstance(v, Term) and v.op == "cmp":
+            # the same comparison of the same operand objects is the same condition
+            def k(x):
+                return ("c", type(x.v).__name__, repr(x.v)) if isinstance(x, Const) else ("o", id(x))
+            cache = self.__dict__.setdefault("_cmp_cache", {})
+            key = (v.args[0], k(l), k(r))
+            hit = cache.get(key)
+            if hit is not None:
+                return hit[0]
+            cache[key] = (v, l, r)
+        return v
+
+    def _compare(self, op, l, r, node) -> Value:
         if op in ("Eq", "NotEq", "Is", "IsNot"):
             s = same_value(l, r)
             if s is None and op in ("Eq", "NotEq"):
@@ -1616,6 +1653,8 @@ class Interp:
                 if awaited:
                     return Term("awaited-result", r)
                 return r
+            if callee.self_val is not None and not isinstance(callee.self_val, Obj):
+                self.invalidate_attrs(callee.self_val, modset(self.p, fi))
             self.maybe_raise(ev)
             return t
         if isinstance(callee, Cls):
@@ -1641,9 +1680,10 @@ class Interp:
 
     def maybe_raise(self, ev):
         f = self.opts.get("call_may_raise")
-        if f is not None and f(ev):
+        k = f(ev) if f is not None else None
+        if k:
             if self.choose(2, "call-raise") == 1:
-                x = Term("exc", None, f"raised by {show(ev.data['term'])[:60]}")
+                x = Term("exc", k if isinstance(k, str) else None, f"raised by {show(ev.data['term'])[:60]}")
                 self.emit("raise", ev.node, value=x, implicit=True)
                 raise _Raise(x, ev.node)
 
@@ -1929,6 +1969,47 @@ def exc_kind(v) -> Optional[str]:
 
 def obj_dict(o: "Obj") -> Dct:
     return Dct([(Const(k), v) for k, v in o.attrs.items() if not k.startswith("__")], label=f"{o.label}.__dict__")
+
+
+_modset_cache: Dict[int, frozenset] = {}
+
+
+def modset(p: Program, fi: FunctionInfo, _stack=()) -> frozenset:
+    """Attributes of ``self`` that ``fi`` (or the self-methods / property setters it calls,
+    transitively) may store: a syntactic may-modify summary."""
+    if id(fi) in _modset_cache:
+        return _modset_cache[id(fi)]
+    if fi in _stack or fi.cls is None:
+        return frozenset()
+    params = fi.params()
+    if not params:
+        return frozenset()
+    me = params[0]
+    out = set()
+    for n in ast.walk(fi.node):
+        tgts = []
+        if isinstance(n, ast.Assign):
+            tgts = n.targets
+        elif isinstance(n, (ast.AugAssign, ast.AnnAssign)):
+            tgts = [n.target]
+        elif isinstance(n, ast.Delete):
+            tgts = n.targets
+        for t in tgts:
+            for sub in ast.walk(t):
+                if isinstance(sub, ast.Attribute) and isinstance(sub.value, ast.Name) and sub.value.id == me and isinstance(sub.ctx, (ast.Store, ast.Del)):
+                    out.add(sub.attr)
+                    st = fi.cls.find_setter(sub.attr)
+                    if st is not None:
+                        out |= modset(p, st, _stack + (fi,))
+        if isinstance(n, ast.Call) and isinstance(n.func, ast.Attribute) and isinstance(n.func.value, ast.Name) and n.func.value.id == me:
+            for c in [fi.cls] + fi.cls.all_subclasses():
+                m = c.find_method(n.func.attr)
+                if m is not None:
+                    out |= modset(p, m, _stack + (fi,))
+    res = frozenset(out)
+    if not _stack:
+        _modset_cache[id(fi)] = res
+    return res
 
 
 def class_of(v) -> Optional[ClassInfo]:
